@@ -40,6 +40,7 @@ class World:
         self.m = repo.module('prettyprinter')
         self.live = DictV([])
         self.warnings = []
+        self._markers = {}
         self.sigs = []
         self.ids = {}
         self.children = {}
@@ -159,6 +160,7 @@ class World:
         if extra or len(a) != 2:
             raise Raised('TypeError: P.%s() got an unexpected keyword argument %s' % (kind, sorted(extra)), getattr(n, 'lineno', 0))
         value, ctx = a
+        self.printer_calls = getattr(self, 'printer_calls', 0) + 1
         name = self.names.get(id(value), '?')
         if kind == 'bad':
             raise Raised('RuntimeError: boom in the printer of %s' % name, getattr(n, 'lineno', 0))
@@ -218,6 +220,24 @@ class World:
             raise Undecided('%s forks into %d abstract paths on concrete input: %s' % (fname, len(prs), [p.fact_text() for p in prs][:3]))
         return prs[0]
 
+    def marker(self, obj):
+        """what the interpreted pipeline prints for a value that is already being printed (its wording is the package's business)"""
+        key = id(obj)
+        if key in self._markers:
+            return self._markers[key]
+        ctx = self.it.construct(TypeV('PrettyContext'), [], {'indent': Const(4), 'depth_left': Const(9)}, None)
+        from .wrapper import context_roles
+        acq = context_roles(self.repo)['acquire'].name
+        self.it.call_method(ctx, acq, [obj], {}, None)
+        before = getattr(self, 'printer_calls', 0)
+        r = self._call('pretty_python_value', [obj, ctx], {})
+        if getattr(self, 'printer_calls', 0) != before:
+            raise NotCut('a value that is marked as being printed is handed to its printer again')
+        if r.raised is not None or not (isinstance(r.value, Const) and isinstance(r.value.v, str)):
+            raise Undecided('printing a value that is already being printed gives %s' % (r.raised.what if r.raised else prov(r.value)))
+        self._markers[key] = r.value.v
+        return r.value.v
+
     def top_level_print(self, value, depth=None):
         self.warnings = []
         return self._call('python_to_sdocs', [value], {'indent': Const(4), 'width': Const(79), 'depth': NONE if depth is None else Const(depth),
@@ -227,6 +247,10 @@ class World:
 
 # ---------------------------------------------------------------------------------------------------- specification
 class _Fail(Exception):
+    pass
+
+
+class NotCut(Exception):
     pass
 
 
@@ -248,7 +272,7 @@ def spec(w, value, warns, depth=None):
         name = w.names[id(v)]
         kind = w.kind_of(v)
         if id(v) in path:
-            return '<Recursion on %s with id=%d>' % (PYTYPE.get(kind, kind), w.ids.setdefault(id(v), 1000 + len(w.ids)))
+            return w.marker(v)
         accepts, container = KINDS[kind]
         if tc is not None and not accepts:
             warns.append('no-trailing-comment-support')
@@ -366,6 +390,9 @@ def run(repo, rep, want):
             except ValueError:
                 want_text, want_exc = None, 'ValueError'
             r = w.top_level_print(value, depth)
+        except NotCut as e:
+            rep.fail(rule, 'wrapper-model[%s]' % label, where, 'scenario "%s": %s - the recursion is not cut at a back-reference' % (label, e))
+            continue
         except (Undecided, PathLimit) as e:
             if want == 'C12' and 'depth exceeded' in str(e):
                 rep.fail(rule, 'wrapper-model[%s]' % label, where, 'scenario "%s": the interpreted pipeline keeps descending into the cyclic value '
@@ -382,17 +409,16 @@ def run(repo, rep, want):
         else:
             rep.check(got == want_text, rule, 'wrapper-model[%s]' % label, where, 'printed as %s' % want_text,
                       'scenario "%s": the specification gives %r, the interpreted pipeline %r' % (label, want_text, got), nontrivial=True)
-        # warnings: failures and unsupported trailing comments are reported, nothing else is
-        got_kinds = sorted('bad-printer' if 'raised an exception' in x or 'Falling back' in x else
-                           'no-trailing-comment-support' if 'trailing comment' in x else 'other:' + x[:60] for x in w.warnings)
+        # warnings: one per failure and per unsupported trailing comment, each naming the printer (the wording is free)
         if want == 'C14' and not (want_exc or got_exc):
             n += 1
-            rep.check(got_kinds == sorted(warns), 'C14.b', 'wrapper-model:warnings[%s]' % label, where, 'one warning per failure / unsupported comment',
-                      'scenario "%s": expected the warnings %s, the interpreted pipeline issues %s' % (label, sorted(warns), got_kinds), nontrivial=True)
-            bad_named = [x for x in w.warnings if ('raised an exception' in x or 'Falling back' in x) and not ('__module__' in x and '__qualname__' in x)]
+            rep.check(len(w.warnings) == len(warns), 'C14.b', 'wrapper-model:warnings[%s]' % label, where, 'one warning per failure / unsupported comment',
+                      'scenario "%s": %d warnings expected (%s), the interpreted pipeline issues %d: %s' % (
+                          label, len(warns), sorted(warns), len(w.warnings), [x[:60] for x in w.warnings][:3]), nontrivial=True)
+            unnamed = [x for x in w.warnings if not ('__module__' in x and '__qualname__' in x)]
             n += 1
-            rep.check(not bad_named, 'C14.b', 'wrapper-model:warning-names-printer[%s]' % label, where, 'the warning names the failing printer',
-                      'scenario "%s": a failure warning does not contain the printer\'s module and qualified name: %s' % (label, bad_named[:1]), nontrivial=True)
+            rep.check(not unnamed, 'C14.b', 'wrapper-model:warning-names-printer[%s]' % label, where, 'every warning names the printer concerned',
+                      'scenario "%s": a warning does not contain the printer\'s module and qualified name: %s' % (label, unnamed[:1]), nontrivial=True)
     return n
 
 
